@@ -124,6 +124,15 @@ def stepMore (s : St) (line : String) : St × String :=
         | some it' => ({ s with riters := s.riters.insert i (some it') }, "ok")
       | none => (s, "bad-op")
     | _, _ => (s, "bad-op")
+  | "open.probe" :: h :: args =>
+    match unhex h with
+    | some file =>
+      match readerOpen s.fixF9 4294967295 (decompOf s.ctab) (kvNat args "verify" 0 == 1) file with
+      | .null => (s, "null")
+      | .abort _ => (s, "abort")
+      | .oob _ => (s, "oob")
+      | .ok _ => (s, "ok")
+    | none => (s, "bad-op")
   | ["r.close", iid] =>
     match iid.toNat? with
     | some i => ({ s with riters := s.riters.erase i }, "ok")
